@@ -28,8 +28,9 @@ VARIABLES l, scen,
           lastT,    \* time of the previous iteration
           ifs,      \* interface table of the daemon's host
           arrs,     \* expiry instants of all record arrivals whose lifetime has not passed yet (C20.timers-popped)
-          inbox, cmds, viol, hits
-vars == <<l, scen, tab, chan, cur, owedStop, down, sched, fu, verifs, lastT, ifs, arrs, inbox, cmds, viol, hits>>
+          inbox, cmds, viol, hits,
+          streak    \* consecutive idle iterations whose requested wake-up is at most 1 ms ahead (C12.nospin)
+vars == <<streak, l, scen, tab, chan, cur, owedStop, down, sched, fu, verifs, lastT, ifs, arrs, inbox, cmds, viol, hits>>
 
 Ev == Rec[l]
 T  == Ev.t
@@ -106,7 +107,7 @@ ApplyCmd(s, c) ==
     [] c.fn = "verify" /\ c.res = "ok" ->
          [s EXCEPT !.tab = Shorten(s.tab, c.args.fnk, T + c.args.timeout, T),
                    !.verifs = s.verifs \cup {[fnk |-> c.args.fnk,
-                                               hosts |-> {s.tab[id].tk : id \in {x \in Dom(s.tab) : x[1] = "SRV" /\ x[2] = c.args.fnk}},
+                                               hosts |-> {s.tab[id].tk : id \in {x \in Dom(s.tab) : x[1] = "SRV" /\ x[2] = c.args.fnk /\ T < s.tab[x].exp /\ s.tab[x].forus}},
                                                at |-> T]}]
     [] c.fn = "shutdown" /\ c.res = "ok" ->
          [s EXCEPT !.down = TRUE, !.sched = <<>>,
@@ -348,6 +349,26 @@ MarksOwed(tBefore, tAfter, ch) ==
           <<"refresh mark passed without a query", id, fell, T>>)
      : id \in {x \in NeededIds(tBefore, ch) : x \in Dom(tAfter)}}
 
+(* C12: the wake-up the daemon asks for when it parks covers all pending      *)
+(* time-driven work of the querier side that the history implies             *)
+HostNeeded(t, ch) ==
+  LET hk == {ch[x].key : x \in {y \in Dom(ch) : ch[y].kind = "host" /\ ch[y].bound /\ ch[y].st = "started"}}
+  IN {id \in Dom(t) : IsAddrTy(id[1]) /\ id[2] \in hk /\ t[id].forus /\ t[id].ttl > 1 /\ T < t[id].exp /\ T < t[id].vexp}
+NextMark(e) == LET ms == {MarkTime(e, m) : m \in MarkPcts \ e.marks} IN {x \in ms : x < e.exp}
+DueTimes(t, ch, sc, fu2, ver) ==
+  {sc[k].next : k \in {x \in Dom(sc) : sc[x].until < 0 \/ sc[x].next < sc[x].until}}
+  \cup {t[id].exp : id \in NeededIds(t, ch) \cup HostNeeded(t, ch)}
+  \cup UNION {NextMark(t[id]) : id \in NeededIds(t, ch)}
+  \cup UNION {{x \in NextMark(t[id]) : x = MarkTime(t[id], 80)} : id \in HostNeeded(t, ch)}
+  \cup {ch[x].deadline : x \in {y \in Dom(ch) : ch[y].kind = "host" /\ ch[y].bound /\ ch[y].st = "started" /\ ch[y].deadline >= 0}}
+  \cup {v.at + 1000 : v \in {w \in ver : w.hosts # {}}}
+  \cup {fu2[k].last + 500 : k \in {x \in Dom(fu2) : fu2[x].n < 3}}
+WakeCover(t, ch, sc, fu2, ver) ==
+  LET due == {d \in DueTimes(t, ch, sc, fu2, ver) : d > T} IN
+  IF due = {} THEN {}
+  ELSE V("C12.cover", Ev.wake >= 0 /\ Ev.wake <= MinOf(due),
+         <<"requested wake-up later than pending time-driven work", Ev.wake, MinOf(due), T>>)
+
 (* C10 (querier): known answers listed in own queries                        *)
 KnownAnswerChecks(t) ==
   UNION {UNION {
@@ -434,8 +455,14 @@ MetricsChecks(t, ch) ==
        ELSE {}
     : j \in {x \in 1..Len(Ev.replies) : Ev.replies[x].k = "metrics"}}
 
+IdleNow == Len(Ev.sent) = 0 /\ Len(Ev.events) = 0 /\ Len(Ev.replies) = 0 /\ inbox = <<>> /\ cmds = <<>>
+                 /\ Ev.wake >= 0 /\ Ev.wake <= T + 1
+SpinV == V("C12.nospin", ~(IdleNow /\ streak + 1 = 30),
+           <<"30 iterations in a row without work, each asking to be woken within 1 ms (timer at or before the current time)", T>>)
+
 Iter ==
   /\ Ev.e = "iter"
+  /\ streak' = IF IdleNow THEN streak + 1 ELSE 0
   /\ \E t1 \in {Ingest(tab, inbox)} :
      \E s1 \in {FoldCmd([tab |-> t1, chan |-> chan, cur |-> cur, owedStop |-> owedStop, down |-> down,
                          sched |-> sched, verifs |-> verifs], cmds)} :
@@ -453,9 +480,11 @@ Iter ==
        /\ verifs' = {v \in s1.verifs : T < v.at + 1001}
        /\ lastT' = T
        /\ arrs' = SelectSeq(arrs \o NewArrivals(inbox), LAMBDA x : x > T)
-       /\ viol' = viol \cup s2.v \cup s3.v
+       /\ viol' = viol \cup SpinV \cup s2.v \cup s3.v
                     \cup (IF Ev.alive /\ ~s1.down THEN ParkInvariants(s2.chan, s1.tab) \cup SchedOwed(s1.sched, s3.used)
-                                                       \cup MarksOwed(s1.tab, s3.tab, s2.chan) ELSE {})
+                                                       \cup MarksOwed(s1.tab, s3.tab, s2.chan)
+                                                       \cup WakeCover(s3.tab, s2.chan, AdvanceSched(s1.sched, s3.used), s3.fu, {v \in s1.verifs : T < v.at + 1000})
+                          ELSE {})
                     \cup KnownAnswerChecks(s1.tab) \cup Everywhere(s3.used) \cup MetricsChecks(s1.tab, s2.chan)
                     \cup QuestionLabels(s1.tab) \cup CacheOnlyQuiet(s2.chan)
                     \cup V("C13.stopped-once", s2.owedStop = {}, <<"SearchStopped owed but not delivered in the iteration of the stop", s2.owedStop>>)
@@ -472,22 +501,23 @@ Reset == /\ Ev.e = "reset"
          /\ scen' = Ev.scen.id /\ tab' = <<>> /\ chan' = <<>> /\ cur' = <<>> /\ owedStop' = {} /\ down' = FALSE
          /\ sched' = <<>> /\ fu' = <<>> /\ verifs' = {} /\ lastT' = 0 /\ ifs' = Ev.hosts[1] /\ arrs' = <<>>
          /\ inbox' = <<>> /\ cmds' = <<>>
-         /\ UNCHANGED <<viol, hits>>
+         /\ UNCHANGED <<viol, hits, streak>>
 Call == /\ Ev.e = "call"
         /\ cmds' = Append(cmds, Ev)
-        /\ UNCHANGED <<scen, tab, chan, cur, owedStop, down, sched, fu, verifs, lastT, ifs, arrs, inbox, viol, hits>>
+        /\ UNCHANGED <<scen, tab, chan, cur, owedStop, down, sched, fu, verifs, lastT, ifs, arrs, inbox, viol, hits, streak>>
 Deliver == /\ Ev.e = "deliver"
            /\ inbox' = Append(inbox, Ev)
-           /\ UNCHANGED <<scen, tab, chan, cur, owedStop, down, sched, fu, verifs, lastT, ifs, arrs, cmds, viol, hits>>
+           /\ UNCHANGED <<scen, tab, chan, cur, owedStop, down, sched, fu, verifs, lastT, ifs, arrs, cmds, viol, hits, streak>>
 IfsEv == /\ Ev.e = "ifs"
          /\ ifs' = Ev.ifs
-         /\ UNCHANGED <<scen, tab, chan, cur, owedStop, down, sched, fu, verifs, lastT, arrs, inbox, cmds, viol, hits>>
+         /\ UNCHANGED <<scen, tab, chan, cur, owedStop, down, sched, fu, verifs, lastT, arrs, inbox, cmds, viol, hits, streak>>
 Skip == /\ Ev.e \in {"adv", "dead", "note", "spawn"}
-        /\ UNCHANGED <<scen, tab, chan, cur, owedStop, down, sched, fu, verifs, lastT, ifs, arrs, inbox, cmds, viol, hits>>
+        /\ viol' = viol
+        /\ UNCHANGED <<scen, tab, chan, cur, owedStop, down, sched, fu, verifs, lastT, ifs, arrs, inbox, cmds, hits, streak>>
 
 Init == /\ l = 1 /\ scen = 0 /\ tab = <<>> /\ chan = <<>> /\ cur = <<>> /\ owedStop = {} /\ down = FALSE
         /\ sched = <<>> /\ fu = <<>> /\ verifs = {} /\ lastT = 0 /\ ifs = <<>> /\ arrs = <<>>
-        /\ inbox = <<>> /\ cmds = <<>> /\ viol = {} /\ hits = {}
+        /\ inbox = <<>> /\ cmds = <<>> /\ viol = {} /\ hits = {} /\ streak = 0
 Next == l <= Len(Rec) /\ l' = l + 1 /\ (Reset \/ Call \/ Deliver \/ IfsEv \/ Skip \/ Iter)
 Spec == Init /\ [][Next]_vars
 
